@@ -273,8 +273,12 @@ def g_name(rng, n=None, lo=0, hi=16):
 def g_utf8(rng, n=None):
     if n is None:
         n = rng.choice([0, 1, 5, 20] * 30 + [32767, 32768, 40000])
-    alphabet = ['a', 'b', 'Z', '0', '-', 'é', 'ß', 'Ж', '中', '😀', ' ']
-    return ''.join(rng.choice(alphabet) for _ in range(n)).encode('utf-8')
+    alphabet = ['a', 'b', 'Z', '0', '-', 'é', 'ß', 'Ж', '中', '😀', ' ', '\ufeff']
+    text = ''.join(rng.choice(alphabet) for _ in range(n))
+    if n >= 1 and rng.random() < 0.08:
+        # text saved by a tool that writes the UTF-8 signature first (U+FEFF): it is part of the field
+        text = '\ufeff' + text[1:]
+    return text.encode('utf-8')
 
 
 def g_int(rng, bits):
